@@ -159,6 +159,7 @@ impl MainState {
             wallops_wf(*final(state)), // @prop C11,C06,C05
             counters_wf(*final(state)), // @prop C19
             senders_distinct(*final(state)), // @prop C02,C01
+            conn_ok(*final(conn_state), *final(state)), // @prop C02
 //@open
         broadcast use group_hash_axioms, bridge, string_eq;
         let ghost o = *old(state);
